@@ -97,7 +97,7 @@ func (g *gen) zeroArgs(n int) string {
 // GenerateReject builds a program that Go must reject (one invalid statement appended to
 // a valid control program) together with that control program.
 func GenerateReject(t *rapid.T, px string) (bad, control gobatch.Program, kind string, ok bool) {
-	g := newGen(t, px)
+	g := newGen(t, px, rapid.Bool().Draw(t, "small-pool"))
 	body := g.entryPrologue()
 	sites := g.badSites()
 	if len(sites) == 0 {
